@@ -77,6 +77,7 @@ def P : Params :=
     maxMatches := 1000
     cands := fun d => if d = 2 then [⟨0, 1, 3⟩] else if d = 3 then [⟨0, 2, 3⟩] else []   -- data 2 / 3: string 0 at offset 1 / 2
     ep := fun d _ => if d = 0 then some 512 else none          -- data 0: an executable with entry point 512
+    scanErr := fun _ => none
     cond := fun i v => if i = 0 then .ret v.entryPoint.isSome else .ret (decide ((tget v.found 0).length ≥ 2))
     modParse := fun _ => none }
 
